@@ -99,12 +99,15 @@ func H_C05_race() {
 	sharedFields("anyDirtyOffset", "dirtyOffsets")
 	ss := vNewSession()
 	ss.deliverDoc(0, 0, true)  // vBucket 0: settled before the save
+	ss.deliverDoc(0, 0, false) // vBucket 0: a newer event, acknowledgement still to come
 	ss.deliverDoc(1, 0, false) // vBucket 1: delivered, acknowledgement still to come
 	ss.fm.onSave = func() { yield() } // the store call takes time
+	// the racing acknowledgement is for the vBucket being saved (newer event) or for another one
+	racer := 1 + choose("racer", 2)
 	spawnEnv(func() { ss.s.checkpoint.Save() })
-	spawnEnv(func() { ss.ackIdx(1) })
+	spawnEnv(func() { ss.ackIdx(racer) })
 	quiesce()
-	assert(ss.acked[1], "acknowledged")
+	assert(ss.acked[racer], "acknowledged")
 	// quiescent tail: no further acknowledgements, two more saves
 	ss.fm.onSave = nil
 	ss.s.checkpoint.Save()
@@ -112,8 +115,10 @@ func H_C05_race() {
 	for vb := 0; vb < vNVB; vb++ {
 		doc, ok := ss.fm.store[uint16(vb)]
 		want := ss.tracked(vb)
-		if vb == 0 {
-			assert(ok && vDocIs(doc, want), "progress settled before the save is durable")
+		if (vb == 0) != (racer == 1) {
+			if vb == 0 {
+				assert(ok && vDocIs(doc, want), "progress settled before the save is durable")
+			}
 		} else {
 			cover("raced")
 			assert(ok && vDocIs(doc, want), "an acknowledgement racing an in-flight save is stored by a later save")
